@@ -154,6 +154,8 @@ def gen_case(r, n=None, dims=(1, 1, 2, 2, 3, 4, 5), exact_only=False, spec=None,
         case["discrete"] = r.choice((1, 2))   # the problem declares discrete parameters (ignored by this solver version)
     if r.random() < 0.06:
         case["ev_probe"] = r.choice(("inverse", "both", "stored"))    # the solver's evolvent is queried by the caller between the calls
+    if r.random() < 0.04:
+        case["np_params"] = r.choice(("int64", "int32"))    # the parameters are given as numpy scalars
     if case["lim"] <= 60 and r.random() < 0.05:
         case["shipped"] = gen_shipped(r, case["n"])    # a listener shipped with the library watches the run
     if r.random() < 0.08:
@@ -201,6 +203,18 @@ def gen_shipped(r, n):
         fam += [("StaticNDPaintListener", {"mode": "lines layers", "calc": "objective function", "varsIndxs": ax}),
                 ("AnimationNDPaintListener", {"toPaintObjFunc": r.random() < 0.7, "varsIndxs": ax})]
     return list(r.choice(fam))
+
+
+def band_case(r, **kw):
+    """a HUGE penalty value (1e155 .. inf) on a band of the box: differences of such values overflow and characteristics become
+    NaN (repaired defects F11, F13); every clause that does not itself compute with the huge values is still claimed"""
+    n = kw.pop("n", None) or r.choice((1, 1, 2, 3))
+    case = gen_case(r, n=n, lim=kw.pop("lim", None) or r.choice([8, 17, 40]), **kw)
+    case["spec"] = {"kind": "band", "a": round(r.uniform(0.1, 0.8), 3), "w": round(r.uniform(0.05, 0.5), 3),
+                    "big": r.choice([1e155, 1e200, 1.7976931348623157e308, float("inf"), float("-inf"), -1e200]), "of": case["spec"]}
+    for k_ in ("shipped", "bg"):
+        case.pop(k_, None)
+    return case
 
 
 def boundary_spec(r, n):
@@ -281,16 +295,21 @@ class Run:
                                           fresh_holder=bool(case.get("fresh_holder")),
                                           n_discrete=int(case.get("discrete", 0)), int_bounds=case.get("int_bounds"))
         self.problem.keep_other = False     # evaluations made by a painter to draw the objective are not trials of the search
-        self.solver = Solver(self.problem, SolverParameters(eps=case["eps"], r=case["r"], itersLimit=case["lim"],
-                                                            evolventDensity=case["m"],
-                                                            refineSolution=case.get("refine", False)))
+        pk = dict(eps=case["eps"], r=case["r"], itersLimit=case["lim"], evolventDensity=case["m"], refineSolution=case.get("refine", False))
+        if case.get("np_params"):
+            # the same numbers as numpy scalars (values taken from an array, np.arange, a loaded configuration): int64 / int32 counts,
+            # float64 reals, numpy bool
+            pk = dict(eps=np.float64(pk["eps"]), r=np.float64(pk["r"]), itersLimit=np.int64(pk["itersLimit"]),
+                      evolventDensity=(np.int32 if case["np_params"] == "int32" else np.int64)(pk["evolventDensity"]),
+                      refineSolution=np.bool_(pk["refineSolution"]))
+        self.solver = Solver(self.problem, SolverParameters(**pk))
         # case["shipped"]: one of the listeners shipped with the library (console output, painters) is attached in front of the
         # oracle's own: the properties of a run are claimed whatever listeners watch it, and the painters probe the objective and
         # are handed the live search data and solution in OnMethodStop
         # (not in runs where an evaluation is made to fail or a zero-length batch is issued before the first trial: the shipped
         # painters are written for the plain Solve / DoGlobalIteration(k >= 1) usage and raise on an empty record - recorded in
         # DESIGN.md, not a property of this list)
-        self.shipped = bool(case.get("shipped")) and fail_at is None and not case.get("first_fails") \
+        self.shipped = bool(case.get("shipped")) and (fail_at is None or fail_at >= 2) and not case.get("first_fails") \
             and case["spec"].get("kind") != "band" \
             and 0 not in case.get("batches", ()) and not any(0 in c for c in case.get("compositions", ()))
         if self.shipped:
@@ -406,6 +425,10 @@ class Run:
 
     def trouble(self, err=None):
         """None, or what went wrong inside the solver other than a legitimate float collapse"""
+        if self.case["spec"].get("kind") == "band" and not (err or self.runaway or self.hang):
+            # objectives with overflowing values: the new point of an interval with an infinite end value is NaN and the run ends by
+            # "x is outside of interval" on a non-tiny interval (contained by Solve) - outside exact arithmetic, not an internal error
+            return None
         if err or self.bad_marker or self.runaway or self.hang:
             return {"raised": err, "unexpected_exception_marker": self.bad_marker, "runaway": self.runaway,
                     "hang": self.hang,
